@@ -1,12 +1,12 @@
 ---------------------------- MODULE MiOptionsGen ----------------------------
 (* Enumerates the value forms of the grammar of MiOptions (TLC prints one FORM tuple per form: the character codes,
-   how Parse classifies it for an ordinary and for a size option, and whether the parsed size is small (<= 64 MiB)).
+   how Parse classifies it for an ordinary and for a size option, whether the parsed size is small (<= 64 MiB), and whether the form belongs to the always-run quick part).
    checks/c20.py turns the forms into environments for the real allocator; the expected results are NOT taken from
    here: OptsTrace re-parses the environment recorded by each run. *)
 EXTENDS MiOptions
 Small(p) == p.kind # "num" \/ Cmp(p.val.mag, NatOfInt(65536)) <= 0
-ASSUME \A f \in AllFormsStr :
+ASSUME \A f \in AllFormsStr \cup QuickFormsStr :
          LET c == S(f) pn == Parse(FALSE, c) pk == Parse(TRUE, c) IN
-         PrintT(<<"FORM", c, pn.kind, pk.kind, Small(pk)>>)
+         PrintT(<<"FORM", c, pn.kind, pk.kind, Small(pk), f \in QuickFormsStr>>)
 GenNext == FALSE /\ UNCHANGED mcVars
 =============================================================================
